@@ -475,6 +475,12 @@ func scenarios() []scenario {
 	add("udp", true, "A", "", false)
 	add("tcp", true, "B", "tcp", false)
 	add("http", false, "B", "tcp", false)
+	add("ws", true, "A", "", false)
+	add("http", true, "A", "", false)
+	add("ws", false, "B", "tcp", false)
+	add("udp", true, "B", "udp", false)
+	add("mcast", false, "B", "tcp", false)
+	add("http", false, "A", "", true)
 	if !run.Quick() {
 		for _, tr := range []string{"tcp", "udp", "http", "ws", "mcast"} {
 			for _, tls := range []bool{false, true} {
